@@ -19,6 +19,7 @@ import (
 	"math/big"
 	"sort"
 	"strings"
+	"unicode/utf8"
 
 	v1 "github.com/crossplane/crossplane/apis/apiextensions/v1"
 )
@@ -56,25 +57,46 @@ type oneOf []any                   // any of the alternatives
 
 // ---- comparison ----------------------------------------------------------------------------
 
-func numToBig(v any) (*big.Float, bool) {
+// numEq compares two JSON numbers: two integers exactly, anything else as the float64 their
+// JSON text denotes (a float64 that is written out and read back may come back as an int64).
+func numEq(a, b any) bool {
+	ai, aInt := asInt(a)
+	bi, bInt := asInt(b)
+	if aInt && bInt {
+		return ai.Cmp(bi) == 0
+	}
+	af, okA := asFloat(a)
+	bf, okB := asFloat(b)
+	return okA && okB && af == bf
+}
+
+func asInt(v any) (*big.Int, bool) {
 	switch n := v.(type) {
 	case int64:
-		return new(big.Float).SetPrec(128).SetInt64(n), true
+		return big.NewInt(n), true
 	case int:
-		return new(big.Float).SetPrec(128).SetInt64(int64(n)), true
-	case float64:
-		if math.IsNaN(n) || math.IsInf(n, 0) {
-			return nil, false
-		}
-		return new(big.Float).SetPrec(128).SetFloat64(n), true
+		return big.NewInt(int64(n)), true
 	case json.Number:
-		f, _, err := big.ParseFloat(string(n), 10, 2048, big.ToNearestEven)
-		if err != nil {
-			return nil, false
+		if i, good := new(big.Int).SetString(string(n), 10); good && i.IsInt64() {
+			return i, true
 		}
-		return f, true
 	}
 	return nil, false
+}
+
+func asFloat(v any) (float64, bool) {
+	switch n := v.(type) {
+	case int64:
+		return float64(n), true
+	case int:
+		return float64(n), true
+	case float64:
+		return n, !math.IsNaN(n)
+	case json.Number:
+		f, st := parseDecimalFloatLoose(string(n))
+		return f, st == numOK
+	}
+	return 0, false
 }
 
 // sameJSON compares an expected value (possibly a wrapper) with an actual one as JSON values:
@@ -82,11 +104,10 @@ func numToBig(v any) (*big.Float, bool) {
 func sameJSON(exp, act any) bool {
 	switch e := exp.(type) {
 	case approx:
-		a, okA := numToBig(act)
+		af, okA := asFloat(act)
 		if !okA {
 			return false
 		}
-		af, _ := a.Float64()
 		if e.v == af {
 			return true
 		}
@@ -126,9 +147,7 @@ func sameJSON(exp, act any) bool {
 		a, isS := act.(string)
 		return isS && a == e
 	case int64, int, float64, json.Number:
-		eb, ok1 := numToBig(e)
-		ab, ok2 := numToBig(act)
-		return ok1 && ok2 && eb.Cmp(ab) == 0
+		return numEq(e, act)
 	case map[string]any:
 		a, isM := act.(map[string]any)
 		if !isM || len(a) != len(e) {
@@ -161,6 +180,8 @@ func jsonSafe(v any) bool {
 	switch t := v.(type) {
 	case float64:
 		return !math.IsNaN(t) && !math.IsInf(t, 0)
+	case string:
+		return utf8.ValidString(t)
 	case map[string]any:
 		for _, e := range t {
 			if !jsonSafe(e) {
@@ -180,12 +201,18 @@ func jsonSafe(v any) bool {
 func deepCopy(v any) any {
 	switch t := v.(type) {
 	case map[string]any:
+		if t == nil {
+			return t
+		}
 		m := make(map[string]any, len(t))
 		for k, e := range t {
 			m[k] = deepCopy(e)
 		}
 		return m
 	case []any:
+		if t == nil {
+			return t
+		}
 		l := make([]any, len(t))
 		for i, e := range t {
 			l[i] = deepCopy(e)
@@ -389,13 +416,19 @@ func parseDecimalFloat(s string) (float64, numStatus) {
 	if len(exp) > 4 {
 		return 0, numDebatable
 	}
-	bf, _, err := big.ParseFloat(s, 10, 53, big.ToNearestEven)
+	return parseDecimalFloatLoose(s)
+}
+
+// parseDecimalFloatLoose rounds well-formed decimal text to the nearest float64 (the text is
+// read with 4000 bits, far finer than any half-ulp distance of short decimals).
+func parseDecimalFloatLoose(s string) (float64, numStatus) {
+	bf, _, err := big.ParseFloat(s, 10, 4000, big.ToNearestEven)
 	if err != nil {
 		return 0, numDebatable
 	}
 	f, _ := bf.Float64()
-	if math.IsInf(f, 0) || (f != 0 && math.Abs(f) < 2.3e-308) || (f == 0 && bf.Sign() != 0) {
-		return 0, numDebatable // overflow / subnormal range: rounding and range errors are debatable
+	if math.IsInf(f, 0) || (f == 0 && bf.Sign() != 0) {
+		return 0, numDebatable // beyond the float64 range: range errors are debatable
 	}
 	return f, numOK
 }
@@ -714,6 +747,9 @@ func refMath(m v1.MathTransform, in any) rres {
 }
 
 func decodeJSON(raw []byte) (any, bool) {
+	if !json.Valid(raw) {
+		return nil, false
+	}
 	d := json.NewDecoder(strings.NewReader(string(raw)))
 	d.UseNumber()
 	var v any
